@@ -33,3 +33,8 @@ pub assume_specification [str::trim] (s: &str) -> (r: &str) ensures r@ == str_tr
 pub assume_specification [str::trim_start] (s: &str) -> (r: &str) ensures r@ == str_trim_start(s@), r@.len() <= s@.len();
 pub assume_specification [str::trim_end] (s: &str) -> (r: &str) ensures r@ == str_trim_end(s@), r@.len() <= s@.len();
 pub assume_specification [String::with_capacity] (_0: usize) -> (r: String) ensures r@ == Seq::<char>::empty();
+#[verifier::allow(undeclared_external_trait)]
+pub assume_specification<P: std::str::pattern::Pattern> [str::ends_with] (_0: &str, _1: P) -> bool
+    where for<'a> <P as std::str::pattern::Pattern>::Searcher<'a>: std::str::pattern::ReverseSearcher<'a>;
+#[verifier::allow(undeclared_external_trait)]
+pub assume_specification<P: std::str::pattern::Pattern> [str::starts_with] (_0: &str, _1: P) -> bool;
